@@ -475,7 +475,7 @@ def _planner(ctx, prog, dual):
         for cl in [c] + util.closure_bodies(prog, c.path) + [x for y in util.closure_bodies(prog, c.path) for x in util.closure_bodies(prog, y.path)]:
             for bi2, t2 in cl.calls():
                 names.append(cname(callee_name(t2)))
-        bad = [n for n in names if n.split('::')[-1] in opw.ITER_DROPPERS | opw.VEC_REMOVERS | opw.VEC_REORDER]
+        bad = [n for n in names if n.split('::')[-1] in opw.ITER_DROPPERS | opw.VEC_REMOVERS | opw.VEC_REORDER | {'rev', 'chain', 'cycle', 'interleave', 'zip', 'flat_map'}]
         mapped = any(n.endswith('::map') for n in names) and any(n.endswith('::collect') for n in names)
         # ... or a loop over the nodes that pushes one converted element per node into the vector that is returned
         looped = False
